@@ -4,19 +4,24 @@ use crate::ctx::{machinery_error, Tier};
 use serde_json::Value;
 
 pub mod child;
+pub mod diag;
 pub mod selftest;
 
 pub mod gen_codec;
 
 pub mod c02;
 pub mod c03;
+pub mod c04;
 pub mod c05;
 pub mod c06;
 pub mod c07;
+pub mod c08;
 pub mod c09;
 pub mod c11;
 pub mod c12;
+pub mod c13;
 pub mod c14;
+pub mod c15;
 pub mod c17;
 
 /// A violation found by a (possibly parallel) sweep, before it is handed to the context.
@@ -39,12 +44,16 @@ pub fn run(id: &str, tier: Tier) {
     match id {
         "C02" => c02::run(tier),
         "C03" => c03::run(tier),
+        "C04" => c04::run(tier),
         "C05" => c05::run(tier),
         "C06" => c06::run(tier),
         "C07" => c07::run(tier),
+        "C08" => c08::run(tier),
         "C09" => c09::run(tier),
         "C11" => c11::run(tier),
+        "C13" => c13::run(tier),
         "C14" => c14::run(tier),
+        "C15" => c15::run(tier),
         "C17" => c17::run(tier),
         "C12" => c12::run(tier),
         _ => machinery_error(&format!("no check for property {}", id)),
@@ -67,12 +76,16 @@ pub fn replay_file(path: &str) -> i32 {
     let r: Result<Option<String>, String> = match id.as_str() {
         "C02" => c02::replay(&case),
         "C03" => c03::replay(&case),
+        "C04" => c04::replay(&case),
         "C05" => c05::replay(&case),
         "C06" => c06::replay(&case),
         "C07" => c07::replay(&case),
+        "C08" => c08::replay(&case),
         "C09" => c09::replay(&case),
         "C11" => c11::replay(&case),
+        "C13" => c13::replay(&case),
         "C14" => c14::replay(&case),
+        "C15" => c15::replay(&case),
         "C17" => c17::replay(&case),
         "C12" => c12::replay(&case),
         _ => Err(format!("no replay for property {}", id)),
